@@ -34,7 +34,7 @@ IOPS = {'+': operator.iadd, '-': operator.isub, '*': operator.imul, '/': operato
 def gates(tier):
     return {'raw_ops': 8000, 'raw_value_outcomes': 1500, 'raw_error_outcomes': 3000,
             'string_evals': 3000, 'string_error_outcomes': 800, 'triple_products': 100,
-            'negpow_disabled_calls': 100, 'inplace_ops': 1500, 'reflected_ops': 1500}
+            'negpow_disabled_calls': 100, 'identity_dim_calls': 400, 'inplace_ops': 1500, 'reflected_ops': 1500}
 
 
 def is_scalar(x):
@@ -417,12 +417,49 @@ def run_grader(ctx):
         ctx.nontrivial(['grader', negpow, sub])
 
 
+def run_identity(ctx):
+    """MatrixGrader(identity_dim=n): the constant I is the n x n identity and obeys the same shape rules."""
+    from mitxgraders import MatrixGrader, RealMatrices
+    from mitxgraders.helpers.calc.exceptions import MathArrayShapeError
+    rng = ctx.rng
+    neutral = ['A*I', 'I*A', 'A+I-I', 'A*I^3', 'A+0*I', '2*I*A/2', 'A*I^-1', 'I^0*A', 'A*trans(I)', 'A*det(I)', 'A*trace(I)/{n}', 'I*A*I',
+               '(A+I)*(A-I)-A^2+I+A', 'A*norm(I)^2/{n}']
+    changed = ['A+I', 'A*2*I', 'A-I', 'I', 'A*trace(I)', 'A+I*1e-3']
+    for i in range(ctx.n(640, 6000)):
+        n = rng.choice([2, 2, 3, 4])
+        ctx.seed_case('identity', i)
+        mode = rng.choice(['same', 'same', 'same', 'other_dim', 'absent'])
+        dim = {'same': n, 'other_dim': n + rng.choice([1, -1]) if n > 2 else n + 1, 'absent': None}[mode]
+        g = MatrixGrader(answers='A', variables=['A'], sample_from={'A': RealMatrices(shape=[n, n])}, identity_dim=dim, max_array_dim=2)
+        want_ok = rng.random() < 0.6
+        sub = rng.choice(neutral if want_ok else changed).replace('{n}', str(n))
+        out = lib.call(ctx, g, None, sub)
+        ctx.ev()
+        ctx.count('identity_dim_calls')
+        wit = {'matrix_size': n, 'identity_dim': dim, 'submission': sub, 'outcome': out.brief()}
+        ctx.nontrivial(['identity', n, dim, sub])
+        if mode == 'same':
+            if not out.returned or (out.value['ok'] is True) != want_ok:
+                ctx.violation('C14:identity:' + ('neutral_use_rejected' if want_ok else 'changed_value_accepted'),
+                              'I should be the %dx%d identity: %r' % (n, n, out.brief()), wit)
+        elif mode == 'absent':
+            if out.returned or type(out.exc).__name__ != 'UndefinedVariable':
+                ctx.violation('C14:identity:available_without_identity_dim', repr(out.brief()), wit)
+        else:
+            # an identity of another size: every product / sum with A is a shape error ('I' alone is merely a wrong answer shape)
+            if sub == 'I' or any(f in sub for f in ('norm(I)', 'det(I)', 'trace(I)')):
+                continue      # I only inside a scalar-valued function: no shape rule involved
+            if out.returned or not isinstance(out.exc, MathArrayShapeError):
+                ctx.violation('C14:identity:wrong_size_not_refused', 'identity_dim=%r with %dx%d matrices: %r' % (dim, n, n, out.brief()), wit)
+
+
 def run(ctx):
     # the operand pool is drawn from the shard's generator: thorough repeats the whole lattice with fresh values
     for rep in range(ctx.pick(1, 12)):
         run_raw(ctx)
         run_strings(ctx)
     run_grader(ctx)
+    run_identity(ctx)
     lib.repo_tests_under_monitor(ctx, 'C14', ['state'])
     if ctx.shard == 0:
         ctx.sample({'route': 'raw', 'op': '*', 'a': 'vector(3)', 'b': 'matrix(3,2)', 'expected': 'vector(2) = np.dot(a, b)'})
